@@ -175,6 +175,10 @@ def cases(tier, seed):
         for fixed in (True, False):
             out.append({"sub": sub, "model": "JC69", "C": 1, "I": False, "clock": "strict", "heights": "ratio", "prior": "no-tree-prior", "extras": ({"rate": 0.0033} if fixed else {}), "run": True})
         out.append({"sub": sub, "model": "JC69", "C": 1, "I": False, "clock": "strict", "heights": "ratio", "prior": "constant", "extras": {"poisson": True}, "run": True})
+    # the input tree as a NEXUS file together with the switches that read it a second time (the root-to-tip regression): in every run
+    for sub in ("advi", "map", "mcmc", "hmc"):
+        for ex in ({"rate_init": "regression"}, {"heights_init": "regression"}, {"heights_init": "regression", "rate_init": "regression"}):
+            out.append({"sub": sub, "model": "HKY", "C": 1, "I": False, "clock": "strict", "heights": ["ratio", "shift"][len(ex) % 2], "prior": "constant", "extras": dict(ex, nexus=True), "run": False})
     # the data set shipped with the repository (69 dated influenza sequences, a tree with tied internal node heights)
     for i in range(16 if tier == "quick" else 240):
         clock = str(rng.choice(["strict", "strict", "ucln"]))
@@ -584,7 +588,7 @@ def initial_values(case, dic, V, C, detail, torch):
         return float(np.polyfit(x, y, 1)[0])
 
     uses_regression = e.get("rate_init") == "regression" or (e.get("heights_init") == "regression" and "rate_init" not in e and "rate" not in e)
-    if case["clock"] == "strict" and e.get("dates") is None and not e.get("nexus"):
+    if case["clock"] == "strict" and e.get("dates") is None:
         if uses_regression:
             want("branchmodel.rate", [regression_slope()], "--rate_init regression", tol=1e-4)
         elif "rate_init" in e:
